@@ -25,7 +25,7 @@ ENV_PLACERS = ("bourse_de::env::Env", "bourse_de::market_env::MarketEnv")
 
 
 def agent_fns(ctx):
-    return [f for f in ctx.prog.fns.values() if f.crate.name == "bourse_de" and "::agents::" in f.path]
+    return [f for f in ctx.prog.units() if f.crate.name == "bourse_de" and "::agents::" in f.path]
 
 
 def is_env_call(c, name):
@@ -480,7 +480,7 @@ def run(ctx):
     n_b = 0
     for f in fns:
         q = m.q(f)
-        for blk in f.body.blocks:
+        for blk in q.body.blocks:
             if blk.cleanup:
                 continue
             for i, st in enumerate(blk.stmts):
